@@ -35,10 +35,11 @@ Open Scope N_scope.
 
 (* ------------------------------------------------------------------ observations *)
 Record bobs := { bo_t : N; bo_cd : Z; bo_op : bop; bo_blk : block; bo_res : bres }.
-Record cobs := { co_t : N; co_cd : Z; co_op : cop; co_blocks : list block; co_handles : list (N * hmap); co_res : cres }.
+Record cobs := { co_t : N; co_cd : Z; co_op : cop; co_blocks : list (option block); co_affs : list bool;
+                 co_handles : list (N * hmap); co_res : cres }.
 Inductive case :=
 | BlockCase (size : nat) (seq0 : N) (obs : list bobs)
-| ClientCase (bs : nat) (rsv : list nat) (init : list block) (obs : list cobs).
+| ClientCase (bs : nat) (rsv : list nat) (strict autoalloc : bool) (epoch : N) (init : list (option block)) (obs : list cobs).
 
 Definition cnt_eqb (x y : N * nat) : bool := N.eqb (fst x) (fst y) && Nat.eqb (snd x) (snd y).
 Definition bres_eqb (a b : bres) : bool :=
@@ -69,20 +70,24 @@ Fixpoint block_run (b : block) (os : list bobs) (i : nat) : option nat :=
       let '(b', r) := bstep (bo_cd o) (bo_t o) b (bo_op o) in
       if block_eqb b' (bo_blk o) && bres_eqb r (bo_res o) then block_run b' rest (S i) else Some i
   end.
-Fixpoint client_run (bs : nat) (rsv : list nat) (st : cstate) (os : list cobs) (i : nat) : option nat :=
+Definition oblock_eqb (a b : option block) : bool :=
+  match a, b with Some x, Some y => block_eqb x y | None, None => true | _, _ => false end.
+Fixpoint client_run (bs : nat) (rsv : list nat) (strict autoalloc : bool) (epoch : N) (st : cstate) (os : list cobs) (i : nat)
+  : option nat :=
   match os with
   | [] => None
   | o :: rest =>
-      let '(st', r) := cstep bs rsv (co_cd o) (co_t o) st (co_op o) in
-      if list_eqb block_eqb (cs_blocks st') (co_blocks o) && list_eqb hs_eqb (cs_handles st') (co_handles o)
-         && cres_eqb r (co_res o)
-      then client_run bs rsv st' rest (S i) else Some i
+      let '(st', r) := cstep bs rsv strict autoalloc epoch (co_cd o) (co_t o) st (co_op o) in
+      if list_eqb oblock_eqb (cs_blocks st') (co_blocks o) && list_eqb Bool.eqb (cs_aff st') (co_affs o)
+         && list_eqb hs_eqb (cs_handles st') (co_handles o) && cres_eqb r (co_res o)
+      then client_run bs rsv strict autoalloc epoch st' rest (S i) else Some i
   end.
 (* index of the first operation after which model and implementation differ *)
 Definition first_bad (c : case) : option nat :=
   match c with
   | BlockCase size seq0 obs => block_run (new_block size seq0) obs 0
-  | ClientCase bs rsv init obs => client_run bs rsv {| cs_blocks := init; cs_handles := [] |} obs 0
+  | ClientCase bs rsv strict autoalloc epoch init obs =>
+      client_run bs rsv strict autoalloc epoch {| cs_blocks := init; cs_aff := map (fun _ => true) init; cs_handles := [] |} obs 0
   end.
 Definition model_agrees (c : case) : bool := match first_bad c with None => true | Some _ => false end.
 
@@ -107,6 +112,7 @@ Inductive okind :=
 | KRelease (rs : list req) (res : option (list nat))      (* Some: not-allocated ordinals (sorted); None: failed *)
 | KRbh (h : N) (sq : option N) (n : option nat)
 | KGC
+| KRelAff            (* releaseBlockAffinity: garbage collection, the affinity is cleared or the block deleted *)
 | KPersist
 | KNone.
 
@@ -304,6 +310,7 @@ Section ClientKind.
     | CRbh h, CResErr ENone => KRbh h None None
     | CRbh h, CResErr ENotFound => KRbh h None (Some O)
     | CGC j, _ => if Nat.eqb i j then KGC else KNone
+    | CRelAff j _, CResErr ENone => if Nat.eqb i j then KRelAff else KNone
     | _, _ => KNone
     end.
 End ClientKind.
@@ -314,7 +321,34 @@ Fixpoint zip3 {A B C} (l1 : list A) (l2 : list B) (l3 : list C) : list (A * B * 
   | _, _, _ => []
   end.
 
-Fixpoint client_oracle (bs : nat) (rsv : list nat) (pbs : list block) (hists : list (list (nat * N))) (os : list cobs) : bool :=
+(* one block slot across one client call.  A block may disappear only when nothing in it is live or still cooling
+   down (the cooldown record lives in the block); a block may appear only freshly created (all free) by the very
+   call that assigns an address in it. *)
+Definition slot_ok (bs : nat) (cd : Z) (t : N) (k : okind) (hist : list (nat * N)) (pb nb : option block) : bool :=
+  match pb, nb with
+  | Some p, Some n => ok_step true cd t p n k && hist_ok true hist (new_allocs p n)
+  | Some p, None =>
+      let v := new_block (bsize p) 0 in
+      match k with
+      | KRelease _ (Some _) | KRbh _ _ _ | KRelAff => forallb (ord_ok true cd t p v k) (ords p) && result_ok true cd t p v k
+      | _ => false
+      end
+  | None, Some n =>
+      let p := new_block bs (bk_seq n - 1) in
+      match k with
+      | KAssign _ _ _ ENone => Nat.eqb (bsize n) bs && ok_step true cd t p n k && hist_ok true hist (new_allocs p n)
+      | _ => false
+      end
+  | None, None => true
+  end.
+Definition slot_hist (bs : nat) (hist : list (nat * N)) (pb nb : option block) : list (nat * N) :=
+  match pb, nb with
+  | Some p, Some n => hist_upd hist (new_allocs p n)
+  | None, Some n => hist_upd hist (new_allocs (new_block bs (bk_seq n - 1)) n)
+  | _, _ => hist
+  end.
+
+Fixpoint client_oracle (bs : nat) (rsv : list nat) (pbs : list (option block)) (hists : list (list (nat * N))) (os : list cobs) : bool :=
   match os with
   | [] => true
   | o :: rest =>
@@ -322,10 +356,10 @@ Fixpoint client_oracle (bs : nat) (rsv : list nat) (pbs : list block) (hists : l
       let idx := seq 0 (length pbs) in
       Nat.eqb (length nbs) (length pbs)
       && forallb (fun x => let '(i, pb, nb) := x in
-                           ok_step true (co_cd o) (co_t o) pb nb (ckind bs rsv i (co_op o) (co_res o))
-                           && hist_ok true (nth i hists []) (new_allocs pb nb)) (zip3 idx pbs nbs)
+                           slot_ok bs (co_cd o) (co_t o) (ckind bs rsv i (co_op o) (co_res o)) (nth i hists []) pb nb)
+                 (zip3 idx pbs nbs)
       && match co_op o, co_res o with
-         | CAuto _ _ num, CResIPs got e => Nat.leb (length got) num && err_eqb e ENone
+         | CAuto _ _ num, CResIPs got e => Nat.leb (length got) num
          | CRelease rs, CResRel un rel e =>
              (* the error is reported iff some block's request failed; released = options of the blocks that did not fail *)
              Bool.eqb (err_eqb e ENone) (forallb (fun r => memb (rq_ord r) rel) rs)
@@ -334,13 +368,15 @@ Fixpoint client_oracle (bs : nat) (rsv : list nat) (pbs : list block) (hists : l
          | _, _ => true
          end
       && client_oracle bs rsv nbs
-           (map (fun x => let '(i, pb, nb) := x in hist_upd (nth i hists []) (new_allocs pb nb)) (zip3 idx pbs nbs)) rest
+           (map (fun x => let '(i, pb, nb) := x in slot_hist bs (nth i hists []) pb nb) (zip3 idx pbs nbs)) rest
   end.
 
 Definition ok_trace (c : case) : bool :=
   match c with
   | BlockCase size seq0 obs => block_oracle (new_block size seq0) [] obs
-  | ClientCase bs rsv init obs => forallb wf_block_b init && client_oracle bs rsv init (map (fun _ => []) init) obs
+  | ClientCase bs rsv _ _ _ init obs =>
+      forallb (fun b => match b with Some b' => wf_block_b b' | None => true end) init
+      && client_oracle bs rsv init (map (fun _ => []) init) obs
   end.
 
 Definition check_case (c : case) : bool * bool := (model_agrees c, ok_trace c).
